@@ -60,8 +60,17 @@ static bool readable(struct xcm_socket *s, int timeout_ms)
     return poll(&p, 1, timeout_ms) > 0;
 }
 
-static void run_loop(FILE *o, const char *proto, int nmsgs, unsigned seed)
+/* xcm_await only when the awaited condition changes (the documented examples await once and then only select) */
+static void await_if_changed(struct xcm_socket *s, int *last, int cond)
 {
+    if (*last != cond) { xcm_await(s, cond); *last = cond; }
+}
+
+/* spec: the sender keeps condition 0 and sends on speculation; only after EAGAIN does it await SENDABLE, and it
+   withdraws that interest before it sends again - so the last accepted send is followed by no XCM call at all */
+static void run_loop(FILE *o, const char *proto, int nmsgs, unsigned seed, bool spec)
+{
+    int last_srv = -1, last_cli = -1, last_acc = -1; bool want_send = !spec;
     bool bs = sys_is_bytestream(proto);
     char addr[300]; sys_addr(proto, addr, sizeof(addr));
     int saved = inject; inject = 0;
@@ -95,9 +104,21 @@ static void run_loop(FILE *o, const char *proto, int nmsgs, unsigned seed)
 	    }
 	}
 	/* declare interest */
-	xcm_await(srv, acc ? 0 : XCM_SO_ACCEPTABLE);
-	if (!cli_closed) xcm_await(cli, sent < nmsgs ? XCM_SO_SENDABLE : 0);
-	if (acc) xcm_await(acc, XCM_SO_RECEIVABLE);
+	await_if_changed(srv, &last_srv, acc ? 0 : XCM_SO_ACCEPTABLE);
+	if (!cli_closed) await_if_changed(cli, &last_cli, sent < nmsgs && want_send ? XCM_SO_SENDABLE : 0);
+	if (acc) await_if_changed(acc, &last_acc, XCM_SO_RECEIVABLE);
+	if (spec && !cli_closed && sent < nmsgs && !want_send) {
+	    /* speculative sends under condition 0 */
+	    while (sent < nmsgs) {
+		size_t l = msg_len(sent, bs);
+		msg_fill(sbuf, sent, l);
+		int src = bs ? xcm_send(cli, sbuf + bs_sent_off, l - bs_sent_off) : xcm_send(cli, sbuf, l);
+		if (src >= 0) { if (bs) { bs_sent_off += src; if (bs_sent_off == l) { bs_sent_off = 0; sent++; } } else sent++; }
+		else if (errno == EAGAIN) { want_send = true; break; }
+		else { failed = true; err_no = errno; err_at = "send"; break; }
+	    }
+	    if (want_send) await_if_changed(cli, &last_cli, XCM_SO_SENDABLE);
+	}
 	struct pollfd p[3]; int np = 0; int is = -1, ic = -1, ia = -1;
 	p[np].fd = xcm_fd(srv); p[np].events = POLLIN; is = np++;
 	if (!cli_closed) { p[np].fd = xcm_fd(cli); p[np].events = POLLIN; ic = np++; }
@@ -116,7 +137,11 @@ static void run_loop(FILE *o, const char *proto, int nmsgs, unsigned seed)
 	    if (acc) progress = true; else if (errno != EAGAIN) { failed = true; err_no = errno; err_at = "accept"; }
 	}
 	if (ic >= 0 && (p[ic].revents & POLLIN)) {
-	    if (sent < nmsgs) {
+	    if (spec && sent < nmsgs) {
+		/* woken: withdraw the interest, the speculative sends at the top of the loop follow */
+		want_send = false; progress = true;
+		await_if_changed(cli, &last_cli, 0);
+	    } else if (sent < nmsgs) {
 		size_t l = msg_len(sent, bs);
 		msg_fill(sbuf, sent, l);
 		int src = bs ? xcm_send(cli, sbuf + bs_sent_off, l - bs_sent_off) : xcm_send(cli, sbuf, l);
@@ -256,7 +281,8 @@ int main(void)
 	int n = h_words(line, w);
 	if (n == 0 || w[0][0] == '#') continue;
 	n_eagain = n_short = 0;
-	if (!strcmp(w[0], "LOOP") && n == 5) { inject = atoi(w[3]); fseed = atoi(w[4]) * 2654435761u + 1; run_loop(o, w[1], atoi(w[2]), atoi(w[4])); inject = 0; }
+	if (!strcmp(w[0], "LOOP") && n == 5) { inject = atoi(w[3]); fseed = atoi(w[4]) * 2654435761u + 1; run_loop(o, w[1], atoi(w[2]), atoi(w[4]), false); inject = 0; }
+	else if (!strcmp(w[0], "SPEC") && n == 5) { inject = atoi(w[3]); fseed = atoi(w[4]) * 2654435761u + 1; run_loop(o, w[1], atoi(w[2]), atoi(w[4]), true); inject = 0; }
 	else if (!strcmp(w[0], "BLOCK") && n == 5) { inject = atoi(w[3]); fseed = atoi(w[4]) * 2654435761u + 1; run_block(o, w[1], atoi(w[2])); inject = 0; }
 	else fputs("bad-op\n", o);
 	fflush(o);
